@@ -4,7 +4,7 @@ import OpcuaModel.Model.Access
   Driver for C31.
     h <nsCount> <N> <node>*N <op>*           → <res>* | <final node>*N
       node  = ns:key:valDV:attr=DV,attr=DV,…   (attribute list `-` when empty)
-      op    = r:ns:key:attr | w:ns:key:attr:DV[:f<extra fields: 1 status code, 2 source timestamp>]
+      op    = r:ns:key:attr | w:ns:key:attr:DV[:f<1 status code, 2 source timestamp, 4 IndexRange — all ignored by the code>]
       DV    = nil | nov | <ty>.<payload>
       res   = ok | bad | unk | den | inv | val:<DV> | panic
       final = valDV;al;ual;nodeclass
